@@ -27,6 +27,10 @@ claim("C20", "Coq proof (contract monitor, for every host) on the SZDD/LZSS port
       "Proof: for every oracle the SZDD scripts never raise the monitor's flag: open modes match name kinds, read/write/seek/tell/message only on open handles of the right mode, sizes non-negative, whence in range, free only of NULL or live pointers (2 theorems, closed). Tie as for C09. For CAB/CHM/KWAJ/OAB the same predicate (plus buffer capacity via ASan, copy overlap, filename identity) is checked on the C side only, over corpus/generated/damaged inputs with sampled single faults - partial.",
       NOTE, "4/C20")
 
+claim("C02", "Coq proof (buffer-bound invariant, regenerated array extents, lifetimes for every host on the SZDD port) + ASan/UBSan sweep with fault injection over all front ends",
+      "Proof: the CAB input buffer never holds more than 65535 (salvage) / 38912 (strict) bytes after any accepted sequence of block parts and that plus the Quantum trailer byte fits the array extent regenerated from cab.h; all Huffman table and code-length array extents regenerated from the headers satisfy the builders' needs; the SZDD/LZSS port never uses a released handle or frees twice under any host. Everything else (window indices, CHM chunk parsing, Huffman table construction, KWAJ/OAB paths) is covered by the sanitizer sweep of the real library only - partial, as DESIGN.md section 4/C02 states.",
+      NOTE, "4/C02")
+
 def main():
     props = [json.loads(l)["id"] for l in open(os.path.join(V, "properties.jsonl"))]
     # only claim what has a check module
